@@ -58,7 +58,7 @@ def one(rep, prog, cfg):
     global FROM_FRAME
     convs = set()
     for f in res["fns"]:
-        co = an.coroutine_of(f)
+        co = an.spliced_coroutine_of(f)
         if co is None:
             continue
         for bb, t in co.calls():
@@ -73,7 +73,7 @@ def one(rep, prog, cfg):
     # ---- conversion sites: event sends whose value is a SubsystemChange ------------------------------
     sites = []
     for f in res["fns"]:
-        co = an.coroutine_of(f)
+        co = an.spliced_coroutine_of(f)
         if co is None:
             continue
         for bb, t in co.calls():
@@ -86,7 +86,7 @@ def one(rep, prog, cfg):
     # the event queue must not drop: lossy sends (try_send on a bounded channel, broadcast) lose changes when the
     # application is slow to poll
     for f in res["fns"]:
-        co = an.coroutine_of(f)
+        co = an.spliced_coroutine_of(f)
         if co is None:
             continue
         for bb, t in co.calls():
@@ -101,7 +101,7 @@ def one(rep, prog, cfg):
     # `changed` entry away before it can become an event
     n_scanned = 0
     for f in res["fns"]:
-        co = an.coroutine_of(f)
+        co = an.spliced_coroutine_of(f)
         if co is None:
             continue
         for fb in family(prog, prog.bodies.get(co.root, co)):
@@ -136,7 +136,7 @@ def one(rep, prog, cfg):
     # ---- both sites: from the Ok frame of the reply every return passes the conversion --------------------
     n_sites = 0
     for f in res["fns"]:
-        co = an.coroutine_of(f)
+        co = an.spliced_coroutine_of(f)
         if co is None:
             continue
         conv = [bb for bb, t in co.calls() if FROM_FRAME in callee_names(t)]
